@@ -451,7 +451,12 @@ class Mon(object):
         mech = '%s:%s:%s:%s' % (entry, et, frame, trig)
         if isinstance(e, RecursionError):
             mech = '%s:RecursionError:cycle=%s' % (entry, recursion_cycle(tb, self.suppdir))
-            nbody = max([ci.longest_body(text)] + [ci.longest_body(t) for t in (ctx.files or {}).values()])
+            texts = [text] + list((ctx.files or {}).values())
+            if max([ci.ast_depth(t) or 0 for t in texts]) >= DEPTH_LIMIT:
+                # statements nested that deep (an elif chain; expression nesting that deep is outside the domain):
+                # every recursive walk over the tree overflows, which one does first says nothing about the mechanism
+                mech = '%s:RecursionError:statement-nesting>=%d' % (entry, DEPTH_LIMIT)
+            nbody = max(ci.longest_body(t) for t in texts)
             if nbody >= 100:
                 # not a cycle: recursion along a long chain of sequential regions
                 mech += ':longest-statement-list>=100'
